@@ -240,7 +240,14 @@ func (option *Option) IsSetDefault() bool {
 // if the specified value could not be converted to the corresponding option
 // value type.
 func (option *Option) Set(value *string) error {
-	kind := option.value.Type().Kind()
+	tp := option.value.Type()
+
+	// A pointer to a slice or map is appended to / inserted into as well
+	for tp.Kind() == reflect.Ptr {
+		tp = tp.Elem()
+	}
+
+	kind := tp.Kind()
 
 	if (kind == reflect.Map || kind == reflect.Slice) && option.clearReferenceBeforeSet {
 		option.empty()
